@@ -703,12 +703,12 @@ def _source_rules(col, crate, r, sfx):
             names = set()
             for st in I.all_end_states() + I.diverged:
                 for ev in st.event_list():
-                    if ev.kind == "call" and ev.args and ev.args[0][0] == "ref" and ev.args[0][1][0] == "field" and ev.args[0][1][2] == r.SRC:
+                    if ev.kind == "call" and ev.args and ev.args[0][0] == "ref" and ev.args[0][1][0] == "field" and ev.args[0][1][2] == r.SRC and ev.args[0][1][1] == ("deref", ("param", 1, I.names.get(1))):   # (the Reader's own field, not field 0 of some other value)
                         names.add((ev.extra.get("trait"), ev.extra.get("name")))
             if names == {("std::io::Read", "read")}:
                 col.ok("W4" + sfx, b.loc(), "%s|source-use" % fk(b), "the source is used only through Read::read")
             else:
-                col.violation("W4" + sfx, "%s|source-use" % fk(b), b.loc(), "the source is used through %s; only Read::read keeps every byte inside the window discipline" % sorted(names))
+                col.violation("W4" + sfx, "%s|source-use" % fk(b), b.loc(), "the source is used through %s; only Read::read keeps every byte inside the window discipline" % sorted(names, key=str))
         else:
             col.violation("W4" + sfx, "%s|touches-source" % fk(b), b.loc(), "%s accesses the byte source directly; only refill may" % b.path)
 
